@@ -36,6 +36,9 @@ def check(src, rep):
     rep.guard(rule_unfinished, src, rep, km, counts)
     rep.guard(rule_get_key, src, rep, km, counts)
     rep.guard(c08.rule_k7, src, rep, counts)
+    # the decoder as Input drives it: bursts, keys cut by the read boundary, unget - the interpreted request histories of C08
+    from . import c08sem
+    rep.guard(c08sem.run, src, rep, counts)
     rep.extracted["counts"] = counts
     rep.extracted["tables"] = {"CURTSIES_NAMES": len(km.curtsies), "CURSES_NAMES": len(km.curses),
                                "KEYMAP_PREFIXES": len(km.prefixes), "MAX_KEYPRESS_SIZE": km.max_size}
